@@ -1552,6 +1552,25 @@ class Interp:
         return b
 
     def _store_into_arr(self, base: Arr, idx, v: Val, st) -> Optional[Val]:
+        if len(idx) == base.ndim >= 2 and all(it[0] == "fancy" for it in idx):
+            # A[rows, cols] = values with index arrays of known integers: one cell after the other (later wins)
+            poss = [arrays.concrete_positions(it) for it in idx]
+            if all(p is not None for p in poss) and len({len(p) for p in poss}) == 1:
+                L = len(poss[0])
+                va = v if isinstance(v, (Sc, Arr)) else arrays.to_arr(v)
+                cur = base
+                for t in range(L):
+                    if isinstance(va, Sc):
+                        vt = va
+                    elif isinstance(va, Arr) and va.ndim == 1 and va.axes[0][0].concrete in (L, 1):
+                        vt = Sc(sym.subst_ivar(va.elem, va.axes[0][1], t if va.axes[0][0].concrete == L else 0))
+                    else:
+                        return None
+                    nxt = self._store_into_arr(cur, [("int", p[t]) for p in poss], vt, st)
+                    if nxt is None:
+                        return None
+                    cur = nxt
+                return cur
         n_real = len([i for i in idx if i[0] != "new"])
         items = [i for i in idx if i[0] != "new"] + [("full",)] * (base.ndim - n_real)
         if len(items) != base.ndim:
@@ -1689,7 +1708,8 @@ class Interp:
                 continue
             v = self.eval(x, env)
             if isinstance(v, Seq) and v.kind == "tuple" and len(elts) == 1 and len(v.items) >= 2 \
-                    and all(isinstance(y, Arr) and not _is_bool(y.elem) for y in v.items):
+                    and all((isinstance(y, Arr) and not _is_bool(y.elem)) or
+                            (isinstance(y, Seq) and y.items and all(isinstance(z, Sc) for z in y.items)) for y in v.items):
                 # A[idx] with idx a tuple of index arrays (np.diag_indices, np.nonzero, ...): the same as A[idx[0], idx[1]]
                 out.extend(("fancy", y) for y in v.items)
                 continue
@@ -1762,6 +1782,11 @@ class Interp:
 
     def global_value(self, tgt: str, node) -> Val:
         if tgt in self.p.functions:
+            f_ = self.p.functions[tgt]
+            if f_.kind == "classmethod" and f_.cls is not None:
+                owner = tgt.rsplit(".", 1)[0]
+                if owner in self.p.classes:
+                    return FuncV("repo", tgt, bound_self=FuncV("class", owner))
             return FuncV("repo", tgt)
         if tgt in self.p.classes:
             return FuncV("class", tgt)
@@ -2159,6 +2184,8 @@ class Interp:
                         return self.call_function(m, [base], {}, node)
                     if m.kind == "staticmethod":
                         return FuncV("repo", m.qualname)
+                    if m.kind == "classmethod":
+                        return FuncV("repo", m.qualname, bound_self=FuncV("class", base.cls))
                     return FuncV("repo", m.qualname, bound_self=base)
             if base.cls is None:
                 return FuncV("method", attr, bound_self=base)
@@ -2166,6 +2193,8 @@ class Interp:
         if isinstance(base, FuncV) and base.kind == "class":
             c = self.p.classes.get(base.target)
             m = c.lookup(attr, self.p) if c else None
+            if m is not None and m.kind == "classmethod":
+                return FuncV("repo", m.qualname, bound_self=base)   # cls is bound to the class the method is reached through
             if m is not None:
                 return FuncV("repo", m.qualname)
         h = self.method_prims.get(attr)
